@@ -11,7 +11,8 @@ class Tab(Problem):
     """Finite MDP given by tables ns[s,a,e] (successor), r[s,a,e], p[s,a,e].  States are 1- or 2-component vectors
     (index = first component), actions 2-component vectors, so that vector plumbing is exercised."""
 
-    def __init__(self, ns, r, p, v0=None, pol0=None, sdim=1, prob_as_array=False, half_units=False):
+    def __init__(self, ns, r, p, v0=None, pol0=None, sdim=1, prob_as_array=False, half_units=False, real_events=False):
+        self.real_events = real_events          # random events are REAL-valued levels 0.6, 1.6, 2.6, ... (integer actions, float events: dtypes differ)
         self.ns, self.r, self.p = jnp.array(ns), jnp.array(r, dtype=jnp.float64), jnp.array(p, dtype=jnp.float64)
         self.N, self.A, self.E = np.asarray(ns).shape
         # integer-valued initial estimates stay INTEGER-typed (a problem may return `0` or `-state[0]` from initial_value): buffers sized "like the values" must still hold floats later
@@ -29,15 +30,16 @@ class Tab(Problem):
         if self.half_units: return (0.5 * i).reshape(-1, 1)
         return jnp.stack([i, 7 - i % 3], axis=1) if self.sdim == 2 else i.reshape(-1, 1)
     def _construct_action_space(self): return jnp.stack([jnp.arange(self.A), jnp.arange(self.A) % 2], axis=1)
-    def _construct_random_event_space(self): return jnp.arange(self.E).reshape(-1, 1)
+    def _construct_random_event_space(self): return (jnp.arange(self.E) + 0.6).reshape(-1, 1) if self.real_events else jnp.arange(self.E).reshape(-1, 1)
+    def _e(self, e): return (jnp.round(e[0]).astype(jnp.int32) - 1) if self.real_events else e[0]          # levels 0.6, 1.6, 2.6 -> 0, 1, 2 (a truncated level maps elsewhere)
     def state_to_index(self, s): return self._k(s)
     def random_event_probability(self, s, a, e):
-        v = self.p[self._k(s), a[0], e[0]]
+        v = self.p[self._k(s), a[0], self._e(e)]
         return v.reshape(1) if self.prob_as_array else v
     def transition(self, s, a, e):
-        k = self._k(s); n = self.ns[k, a[0], e[0]]
-        if self.half_units: return (0.5 * n).reshape(1), self.r[k, a[0], e[0]]
-        return (jnp.array([n, 7 - n % 3]) if self.sdim == 2 else n.reshape(1)), self.r[k, a[0], e[0]]
+        k = self._k(s); ei = self._e(e); n = self.ns[k, a[0], ei]
+        if self.half_units: return (0.5 * n).reshape(1), self.r[k, a[0], ei]
+        return (jnp.array([n, 7 - n % 3]) if self.sdim == 2 else n.reshape(1)), self.r[k, a[0], ei]
     def initial_value(self, s): return (0 if getattr(self, "int_zero", False) else 0.0) if self.v0 is None else self.v0[self._k(s)]
     def initial_policy(self, s):
         if self.pol0 is None: raise NotImplementedError
